@@ -8,7 +8,9 @@ import sys
 from . import pyextract as px
 from .vlib import COQ, NPROC, Check, Lock, sh
 
-PROPS = ["C13"]
+import glob
+
+PROPS = sorted(os.path.basename(f)[:-3].upper() for f in glob.glob(os.path.join(os.path.dirname(__file__), "c[0-9][0-9].py")))
 
 
 def main() -> int:
